@@ -67,7 +67,25 @@ def inner_build(spec, env):
         return Always()
     if spec[0] == "empty_never":
         return EmptyNever()
+    if spec[0] == "raising":
+        return RaisingInner()
     return Never()
+
+
+class InnerBroke(Exception):
+    pass
+
+
+class RaisingInner:
+    """An inner matcher that fails while it inspects what it is given (AfterPreprocessing(lambda f: f.value.code, ...)
+    on an exception without .code): the error leaves match() - the Deferred is still only LOOKED at: a failure that
+    was inspected is not logged as unhandled later, nothing is fired."""
+
+    def match(self, value):
+        raise InnerBroke("the inner matcher broke")
+
+    def __str__(self):
+        return "RaisingInner()"
 
 
 class EmptyNever:
@@ -90,6 +108,8 @@ def inner_sem(spec, state, env):
         return True
     if spec[0] in ("never", "empty_never"):
         return False
+    if spec[0] == "raising":
+        return "raises"
     if spec[0] == "value":
         v = state[1]
         if not isinstance(v, int) or isinstance(v, bool):
@@ -213,7 +233,12 @@ def x_history(ctx, case):
                     got = "match raised %r" % (e,)
                 if state[0] != "unfired":
                     nontrivial = True
-                ctx.check(got == bool(want), "verdict==state-and-inner-matcher",
+                if want == "raises":
+                    want = "match raised InnerBroke('the inner matcher broke')"      # (consulted: its error leaves match())
+                    ctx.check(got == want, "verdict==state-and-inner-matcher",
+                              lambda: {"op": op, "at": i, "state": state, "got": got, "want": want, **detail()})
+                else:
+                    ctx.check(got == bool(want), "verdict==state-and-inner-matcher",
                           lambda: {"op": op, "at": i, "state": state, "got": got, "want": want, **detail()})
                 ctx.check(d.called == called_before and d.paused == paused_before, "matching-never-fires",
                           lambda: {"op": op, "called before": called_before, "after": d.called, **detail()})
@@ -438,6 +463,17 @@ def run(ctx):
                             n += 1
                             ctx.execute("history", {"init": init, "ops": [m1, mid, fire, m2, ["add_callback"]]})
     ctx.note_space("match, grow the chain, fire, match again: 5 x 3 x 3 x 5 x 2 five-step histories", n)
+    # an inner matcher that breaks while it looks at the result / the failure
+    n = 0
+    rs, rf = ["match", "succeeded", ["raising"]], ["match", "failed", ["raising"]]
+    for init in INITS:
+        for seq in ([rs], [rf], [rf, ["add_callback"]], [rf, rf], [rs, rf], [rf, ["match", "failed", ["always"]]],
+                    [["add_callback"], rf, ["extract"]], [rs, ["match", "succeeded", ["always"]]], [["fire", 3], rs], [["fail", "KeyError"], rf],
+                    [["fail", "KeyError"], rf, ["add_callback"]]):
+            if legal(init, seq) and ctx.mine():
+                n += 1
+                ctx.execute("history", {"init": init, "ops": seq})
+    ctx.note_space("an inner matcher that raises, under succeeded() / failed(): %d initial states x 11 short histories" % len(INITS), n)
     # a result whose repr cannot be had (an int of 4301 digits): matchers that match do not need it
     n = 0
     quiet = [["match", "succeeded", ["always"]], ["match", "failed", ["always"]], ["match", "no_result"],
